@@ -27,6 +27,15 @@ T = {
  "C13": ("refmodel", "exploration", "runtime monitor: sequential reference model per operation inside multi-operation write transactions, with an executable alternative model as known-finding explainer",
          "Generated transactions read, peek and pop what they just wrote; every returned value and the state after Commit are compared with sequential execution. A mismatch is attributed to the known finding only if the alternative model (operations evaluated on the committed pre-state, invalid ones skipped at apply time) reproduces it exactly.",
          "Known finding KF-C13-COMMITTED-VIEW: the property does not hold on this code base (architectural); the check still reports any deviation the alternative model cannot reproduce."),
+ "C19": ("refmodel", "exploration", "differential runtime monitor: one generated history executed under every storage configuration, results compared call by call and after reopen",
+         "No model: 24 configurations (RWMode x StartFileLoadingMode x SyncEnable x three index modes) for KV histories, 8 for structure histories; any divergence in a call's result class/value or in the reopened contents is a violation.",
+         "Error texts are not compared; SPop is excluded because its result is random by design."),
+ "C20": ("refmodel", "exploration", "runtime monitor: reflection-driven API fuzzer with boundary-value pools and panic/fatal catcher",
+         "Every exported Tx method in four call states (read-only, writable then Commit/Rollback, after Commit, after Rollback), DB-level calls before and after Close, Open with hostile options; a recovered panic or a dead worker process is a violation attributed to the exact call sequence.",
+         "Fatal runtime errors are caught as process death by the driver; path arguments are confined to the scratch directory."),
+ "C21": ("codec", "fault_enumeration", "fault enumeration on stored records: round trip + every single-bit flip + every truncation length, read back through the library's own readers",
+         "For each generated record all 8n single-bit flips and all n truncation lengths are applied to the stored bytes; allowed outcomes are error, absent, or the identical record.",
+         "CRC-32 detects all single-bit errors of a fixed-length message; flips in length fields rely on no checksum collision (2^-32 per read)."),
  "C05": ("refmodel", "exploration", "runtime monitor: Redis-list reference model; bounded-exhaustive state x operation x argument sweep on the exported list type plus one-operation-per-transaction histories with full observation",
          "Exhaustive for the bounded scope on ds/list.List (781 states x 3 construction paths x all arguments, all short sequences), random long sequences, and transaction-level histories with reopen; every call result and resulting list compared with the model.",
          "Model tolerates the documented error-instead-of-clamp choices; a panic is never tolerated."),
